@@ -135,44 +135,66 @@ Theorem C01_from_composite_refuses : forall t a c d s f v,
 Proof. exact sph_from_composite_refuses. Qed.
 Print Assumptions C01_from_composite_refuses.
 
-(* Setter path.  The attribute setters of SpacePacketHeader (apid, seq_count, data_len, ...) do not
-   validate (Model/SpacePacket.v, sph_apply).  Proposed statement
-     forall h v, sph_valid h -> ~ 0 <= v <= 2047 -> sph_pack (sph_apply h (SoApid v)) = Err EValue
-   (and its analogues for the sequence count and the data length) is FALSE of the model and of the
-   code: pack() never raises ValueError; an out-of-range APID / count in 0..65535 spills into the
-   neighbouring field and IS encoded; only values that do not fit the 16-bit word, and every
-   out-of-range data length, are refused -- with struct.error. *)
-Theorem C01_pack_never_valueerror : forall h o, sph_pack (sph_apply h o) <> Err EValue.
-Proof. exact sph_setter_never_evalue. Qed.
-Print Assumptions C01_pack_never_valueerror.
+(* Setter path.  The attribute setters of SpacePacketHeader (apid, seq_count, data_len, and the same
+   assignments through the public packet_id / packet_seq_control objects) do not validate
+   (Model/SpacePacket.v, sph_apply); pack() does.  For EVERY header state, whatever was assigned: *)
 
-(* witness: header of zeros, h.apid = 2048 -> 08 00 00 00 00 00 (secondary-header flag set, APID 0) *)
-Theorem C01_setter_apid_refuted : exists h v, sph_valid h /\ ~ 0 <= v <= 2047 /\
-  sph_pack (sph_apply h (SoApid v)) =
-    Ok (sph_layout {| ver := ver h; ptype := ptype h; shf := 1; apid := 0;
-                      sflags := sflags h; scount := scount h; dlen := dlen h |}).
-Proof. exact sph_setter_apid_refuted. Qed.
-Print Assumptions C01_setter_apid_refuted.
+(* ... an APID, sequence count or data length outside its range is refused with ValueError ... *)
+Theorem C01_pack_out_of_range_refused : forall h,
+  ~ (0 <= apid h <= 2047 /\ 0 <= scount h <= 16383 /\ 0 <= dlen h <= 65535) ->
+  sph_pack h = Err EValue.
+Proof. exact sph_pack_out_of_range. Qed.
+Print Assumptions C01_pack_out_of_range_refused.
 
-(* witness: header of zeros, h.seq_count = 16384 -> 00 00 40 00 00 00 (flags 01, count 0) *)
-Theorem C01_setter_count_refuted : exists h v, sph_valid h /\ ~ 0 <= v <= 16383 /\
-  sph_pack (sph_apply h (SoCount v)) =
-    Ok (sph_layout {| ver := ver h; ptype := ptype h; shf := shf h; apid := apid h;
-                      sflags := 1; scount := 0; dlen := dlen h |}).
-Proof. exact sph_setter_count_refuted. Qed.
-Print Assumptions C01_setter_count_refuted.
+(* ... i.e. out-of-range values are never encoded: whatever pack() returns, it returns for in-range
+   values only *)
+Theorem C01_pack_never_encodes_out_of_range : forall h b, sph_pack h = Ok b ->
+  0 <= apid h <= 2047 /\ 0 <= scount h <= 16383 /\ 0 <= dlen h <= 65535.
+Proof. exact sph_pack_ok_in_range. Qed.
+Print Assumptions C01_pack_never_encodes_out_of_range.
 
-(* what does hold on the setter path: an out-of-range data length is never encoded (struct.error),
-   nor is an APID outside the 16-bit word *)
-Theorem C01_setter_dlen_out_of_range : forall h v, sph_valid h -> ~ 0 <= v <= 65535 ->
-  sph_pack (sph_apply h (SoDlen v)) = Err EStruct.
-Proof. exact sph_setter_dlen_out_of_range. Qed.
-Print Assumptions C01_setter_dlen_out_of_range.
+(* one assignment, from any state *)
+Theorem C01_setter_apid_refused : forall h v, ~ 0 <= v <= 2047 ->
+  sph_pack (sph_apply h (SoApid v)) = Err EValue.
+Proof. exact sph_setter_apid_refused. Qed.
+Print Assumptions C01_setter_apid_refused.
+Theorem C01_setter_count_refused : forall h v, ~ 0 <= v <= 16383 ->
+  sph_pack (sph_apply h (SoCount v)) = Err EValue.
+Proof. exact sph_setter_count_refused. Qed.
+Print Assumptions C01_setter_count_refused.
+Theorem C01_setter_dlen_refused : forall h v, ~ 0 <= v <= 65535 ->
+  sph_pack (sph_apply h (SoDlen v)) = Err EValue.
+Proof. exact sph_setter_dlen_refused. Qed.
+Print Assumptions C01_setter_dlen_refused.
 
-Theorem C01_setter_apid_large : forall h v, sph_valid h -> (v < 0 \/ 65536 <= v) ->
-  sph_pack (sph_apply h (SoApid v)) = Err EStruct.
-Proof. exact sph_setter_apid_large. Qed.
-Print Assumptions C01_setter_apid_large.
+(* every header state reachable from a constructed header by ANY setter history (any integer
+   assigned to APID / count / data length; packet type, secondary header flag and sequence flags
+   within their enumerations, version as constructed): pack() = the standard's six octets of the
+   current values when APID, count and data length are in range (and they decode back), ValueError
+   otherwise; a later in-range assignment heals the object *)
+Theorem C01_setter_history_pack : forall ops h, sph_valid h -> Forall sph_op_rest_in_range ops ->
+  let h' := fold_left sph_apply ops h in
+  (sph_in_range h' -> sph_pack h' = Ok (sph_layout h') /\
+                      forall rest, sph_unpack (sph_layout h' ++ rest) = Ok h') /\
+  (~ sph_in_range h' -> sph_pack h' = Err EValue) /\
+  (forall b, sph_pack h' = Ok b -> sph_in_range h' /\ b = sph_layout h').
+Proof. exact sph_history_pack_iff. Qed.
+Print Assumptions C01_setter_history_pack.
+
+(* SpacePacket.pack() packs the header first: the same refusal whatever the parts are *)
+Theorem C01_space_packet_out_of_range_refused : forall h sec ud, ~ sph_in_range h ->
+  space_packet_pack h sec ud = Err EValue.
+Proof. exact space_packet_pack_out_of_range. Qed.
+Print Assumptions C01_space_packet_out_of_range_refused.
+
+(* the former counterexamples (h.apid = 2048 -> 08 00 .., h.seq_count = 16384 -> 00 00 40 00 ..,
+   h.data_len = 65536 -> struct.error) are refused now, and an in-range assignment heals *)
+Example C01_setter_witnesses :
+  sph_pack (sph_apply sph_zero (SoApid 2048)) = Err EValue /\
+  sph_pack (sph_apply sph_zero (SoCount 16384)) = Err EValue /\
+  sph_pack (sph_apply sph_zero (SoDlen 65536)) = Err EValue /\
+  sph_pack (fold_left sph_apply [SoApid 2048; SoPack; SoApid 2047] sph_zero) = Ok [7; 255; 0; 0; 0; 0].
+Proof. exact sph_setter_witnesses. Qed.
 
 (* non-vacuity of sph_valid *)
 Example C01_valid_inhabited :
